@@ -254,6 +254,15 @@ func (g *pgen) corpusC04(start int) []*ConvSpec {
 		tMap(tPtr(i), str),
 		tMap(tArr(2, tPtr(i)), i),
 	}
+	// skipCopySameType and T -> *T: the pointer must not be the address of the source field / element
+	un := &Ty{K: "struct", Pkg: 1, Fields: []Field{{"N", i}}}
+	s1 := g.newNamed(1, &Ty{K: "struct", Pkg: 1, Fields: []Field{{"L", tSlice(i)}, {"M", tMap(str, i)}, {"U", un}, {"E", tSlice(un)}}}, "S")
+	t1 := g.newNamed(1, &Ty{K: "struct", Pkg: 1, Fields: []Field{{"L", tPtr(tSlice(i))}, {"M", tPtr(tMap(str, i))}, {"U", tPtr(un)}, {"E", tSlice(tPtr(un))}}}, "T")
+	for _, pair := range [][2]*Ty{{tPtr(tNamed(s1)), tPtr(tNamed(t1))}, {tSlice(un), tSlice(tPtr(un))}, {tSlice(tNamed(s1)), tSlice(tNamed(t1))}, {tNamed(s1), tNamed(t1)}} {
+		c := &ConvSpec{Name: fmt.Sprintf("C%d", start+len(out)), Lines: []string{"skipCopySameType"}}
+		c.Methods = []*MethodSpec{{Name: "M0", Src: pair[0], Tgt: pair[1], Fields: map[string]*fieldSet{}}}
+		out = append(out, c)
+	}
 	for k, sh := range shapes {
 		c := &ConvSpec{Name: fmt.Sprintf("C%d", start+len(out))}
 		c.Methods = []*MethodSpec{{Name: "M0", Src: sh, Tgt: sh, Fields: map[string]*fieldSet{}}}
